@@ -312,13 +312,17 @@ theorem simpson_algebra (U : ℕ → ℚ) (k : ℕ) :
     rw [pow_succ 2 (j + 1)]; ring
   rw [hD]; ring
 
-/-- the weights of a Simpson container: the level-0 row `h/3, h/3` loses `c_{k,0}/3` of the length -/
-theorem simpson_total (a b : ℚ) (k : ℕ) (hab : a ≠ b) :
-    2 * simpBoundary a b (k + 1) + levelSum (fun l => simpInner a b l (k + 1)) (k + 1) 1
+/-- the boundary weight with ALL rows divided by 3 (auxiliary; this is what the code computed before the level-0 row
+    was repaired) -/
+def simpBoundaryOld (a b : ℚ) (m : ℕ) : ℚ :=
+  sumRange 0 (m + 1) (fun j => coeff a b 3 m j * stepWidth a b j) / 3
+
+theorem simpson_total_old (a b : ℚ) (k : ℕ) (hab : a ≠ b) :
+    2 * simpBoundaryOld a b (k + 1) + levelSum (fun l => simpInner a b l (k + 1)) (k + 1) 1
       = (b - a) * (1 - coeff a b 3 (k + 1) 0 / 3) := by
   set U : ℕ → ℚ := fun j => coeff a b 3 (k + 1) j * stepWidth a b j with hU
-  have hb : 2 * simpBoundary a b (k + 1) = 2 / 3 * ∑ j ∈ range (k + 2), U j := by
-    simp only [simpBoundary, sumRange_eq, zero_add, hU]
+  have hb : 2 * simpBoundaryOld a b (k + 1) = 2 / 3 * ∑ j ∈ range (k + 2), U j := by
+    simp only [simpBoundaryOld, sumRange_eq, zero_add, hU]
     ring
   have hl : levelSum (fun l => simpInner a b l (k + 1)) (k + 1) 1
       = ∑ t ∈ range (k + 1), 2 ^ t * (4 / 3 * U (1 + t) + 2 / 3 * ∑ i ∈ range (k - t), U (1 + t + 1 + i)) := by
@@ -343,6 +347,25 @@ theorem simpson_total (a b : ℚ) (k : ℕ) (hab : a ≠ b) :
   rw [Finset.sum_congr rfl (fun j _ => hterm j), ← Finset.sum_mul, hs]
   have hU0 : U 0 = coeff a b 3 (k + 1) 0 * (b - a) := by simp [hU, stepWidth_eq]
   rw [hU0]; ring
+
+/-- the coded boundary weight (level-0 row `h/2`) exceeds the all-thirds one by `c_{m,0} (b-a) / 6` -/
+theorem simpBoundary_eq (a b : ℚ) (m : ℕ) :
+    simpBoundary a b m = simpBoundaryOld a b m + coeff a b 3 m 0 * (b - a) / 6 := by
+  simp only [simpBoundary, simpBoundaryOld, sumRange_eq, zero_add]
+  rw [Finset.sum_range_succ' _ m, Finset.sum_range_succ' _ m]
+  simp only [stepWidth_eq, pow_zero, div_one, if_true, Nat.add_eq_zero_iff, one_ne_zero, and_false, if_false]
+  have hs : ∑ x ∈ range m, coeff a b 3 m (x + 1) * ((b - a) / 2 ^ (x + 1)) / 3
+      = (∑ x ∈ range m, coeff a b 3 m (x + 1) * ((b - a) / 2 ^ (x + 1))) / 3 := by
+    simp only [div_eq_mul_inv, Finset.sum_mul]
+  rw [hs]
+  ring
+
+/-- **the weights of a Simpson container sum to the length of its interval** (level-0 row `h/2, h/2`) -/
+theorem simpson_total (a b : ℚ) (k : ℕ) (hab : a ≠ b) :
+    2 * simpBoundary a b (k + 1) + levelSum (fun l => simpInner a b l (k + 1)) (k + 1) 1 = b - a := by
+  have := simpson_total_old a b k hab
+  rw [simpBoundary_eq]
+  linarith
 
 /-- boundary weight of a container of the given version -/
 def bwOf (cv : ContVer) (a b : ℚ) (k : ℕ) : ℚ :=
